@@ -397,6 +397,11 @@ type Obs struct {
 	Err    string `json:"err"`
 }
 
+// ErrObs is an observation that failed as a whole (no nil slices: the trace reader rejects JSON null).
+func ErrObs(msg string) Obs {
+	return Obs{Docs: []Doc{}, ByID: []Doc{}, Dict: []DictEnt{}, Sorted: []Doc{}, Err: msg}
+}
+
 func sortDocs(d []Doc) {
 	sort.Slice(d, func(i, j int) bool {
 		if d[i].ID != d[j].ID {
